@@ -556,7 +556,7 @@ B("T8.labels_conserved", ["C04", "C13", "C06"], SPAN, "bounded_labels_conserved"
   "CellBuffer::get_fragment_spans / Span::endorse / endorse_to_arcs_and_circles / circle_map::endorse_*_span / Contacts::endorse_rects",
   "whatever endorsement matches (circles, arcs, rects), every label character of the input is shown by exactly one text fragment at its own cell "
   "and no text appears at a cell without a label",
-  "the 8 bundled diagrams + 22 catalogue drawings x {whole, upper, lower, left part} x 3 offsets x label on the first / last row")
+  "the 8 bundled diagrams + 22 catalogue drawings x {whole, upper, lower, left part} x 3 offsets x label on the first / last row + every drawing of the quarter / half / three-quarter arc catalogues x 3 offsets x 3 label positions")
 
 B("C09.straight_runs", ["C09", "C03"], FB, "bounded_straight_runs", "rows of - ~ _ = | : ! / \\ in ASCII_PROPERTIES + Merge::merge_recursive + Line::merge",
   "a straight run is exactly one line spanning the whole run (two for '='), dashed for ~ : !",
